@@ -12,6 +12,8 @@ import (
 	"io"
 	"os"
 	"os/exec"
+	"strconv"
+	"strings"
 	"time"
 
 	"verifharness/h"
@@ -74,6 +76,10 @@ func main() {
 			close(lines)
 		}()
 		dead := ""
+		// A case is "timeout" only if the worker really is stuck on it: it burnt more than 10 s of CPU time on the case (a loop), or all
+		// its threads sleep and its CPU time stands still across two looks (a deadlock). A worker that is merely waiting for a CPU on a
+		// loaded machine is waited for (at most 15 minutes per case).
+		cpuAtLine, lastCPU, idleLooks, waited := procCPU(cmd.Process.Pid), int64(-1), 0, time.Duration(0)
 	loop:
 		for i < len(cases) {
 			select {
@@ -85,9 +91,24 @@ func main() {
 				w.Write(l)
 				w.WriteByte('\n')
 				i++
+				cpuAtLine, lastCPU, idleLooks, waited = procCPU(cmd.Process.Pid), -1, 0, 0
 			case <-time.After(*perCase):
-				dead = "timeout"
-				break loop
+				waited += *perCase
+				now := procCPU(cmd.Process.Pid)
+				if now-cpuAtLine >= 10*ticksPerSecond || waited > 15*time.Minute {
+					dead = "timeout"
+					break loop
+				}
+				if now == lastCPU && allThreadsSleep(cmd.Process.Pid) {
+					idleLooks++
+				} else {
+					idleLooks = 0
+				}
+				lastCPU = now
+				if idleLooks >= 2 {
+					dead = "timeout"
+					break loop
+				}
 			}
 		}
 		cmd.Process.Kill()
@@ -111,6 +132,51 @@ func main() {
 			i++
 		}
 	}
+}
+
+const ticksPerSecond = 100 // USER_HZ on Linux
+
+// procCPU is the CPU time (user + system, in clock ticks) a process has used so far; 0 if unknown.
+func procCPU(pid int) int64 {
+	b, err := os.ReadFile(fmt.Sprintf("/proc/%d/stat", pid))
+	if err != nil {
+		return 0
+	}
+	return statCPU(b)
+}
+
+// statCPU reads utime + stime from the text of a /proc/.../stat file (fields 14 and 15; the command name in field 2 may hold blanks).
+func statCPU(b []byte) int64 {
+	s := string(b)
+	if k := strings.LastIndex(s, ")"); k >= 0 {
+		f := strings.Fields(s[k+1:])
+		if len(f) > 13 {
+			u, _ := strconv.ParseInt(f[11], 10, 64)
+			v, _ := strconv.ParseInt(f[12], 10, 64)
+			return u + v
+		}
+	}
+	return 0
+}
+
+// allThreadsSleep tells whether every thread of the process is in state S (interruptible sleep): nobody runs, nobody waits for a CPU.
+func allThreadsSleep(pid int) bool {
+	ents, err := os.ReadDir(fmt.Sprintf("/proc/%d/task", pid))
+	if err != nil || len(ents) == 0 {
+		return false
+	}
+	for _, e := range ents {
+		b, err := os.ReadFile(fmt.Sprintf("/proc/%d/task/%s/stat", pid, e.Name()))
+		if err != nil {
+			return false
+		}
+		s := string(b)
+		k := strings.LastIndex(s, ")")
+		if k < 0 || k+2 >= len(s) || s[k+2] != 'S' {
+			return false
+		}
+	}
+	return true
 }
 
 func runWorker() {
